@@ -237,7 +237,10 @@ def replay(path):
     return 1 if (out.oracle_violations or out.mismatches) else 0
 
 
-SCOPE = "see coq/theories/C07/STATUS.md"
+SCOPE = ("full: C07_full (the bookkeeping invariant holds after every finite history of create / withdraw / add / transfer / swap exact-in / exact-out / time, "
+         "for every authorised tick spacing and spread factor) and its corollaries active_liq_eq, tick_sums, price_tick_consistent (boundary form), "
+         "empty_pool_no_price, ids_owners_ranges_stable, ids_never_reused, ranges_stable_forever are proved axiom-free over the model CL/*.v, including all swap "
+         "cases (crossing up / down, landing inside a bucket, gaps, no-progress steps)")
 EXPLANATION = ("Invariant proofs over the Gallina model CL/{TickMath,CLMath,CLPool,CLSwap,CLStep}.v (a function-by-function transcription of "
                "x/concentrated-liquidity lp.go / tick.go / position.go / swaps.go / swapstrategy / math) by induction over operation histories; the model "
                "is tied to /repo by running the real MsgServers (full app, baseapp atomicity) on generated histories and comparing pool, ticks, positions, "
